@@ -7,6 +7,7 @@ MONITORS = {
     "C03": ["monitors.c03"],
     "C04": ["monitors.c04"],
     "C05": ["monitors.c05"],
+    "C06": ["monitors.c06"],
     "C08": ["monitors.c08"],
     "C09": ["monitors.c09"],
     "C11": ["monitors.c11"],
